@@ -11,7 +11,9 @@
 //   - issues the marker mkdir("/VERIF-C20-MARK/<n>/op-begin") (fails with ENOENT, visible to strace),
 //     runs the operation on the real code (in process, or the real regctl binary as a child),
 //     issues the op-end marker,
-//   - lists again and writes one JSON line with the differences, the victim check and the error.
+//   - lists again and writes one JSON line with the differences, the victim check and the error
+//     (a "pre" line is written before the operation, so that a crash of the process inside the
+//     operation - e.g. a panic in a goroutine of the library - still leaves the declaration).
 //
 // Entry points: regctl artifact get --output [--strip-dirs] (binary), archive.Extract,
 // regclient.ImageImport into ocidir://, and every ocidir operation taking a digest, tag or
@@ -90,6 +92,7 @@ type fact struct {
 	Panicked int      `json:"panicked"`
 	Input    string   `json:"input"` // the hostile string as used (hex), for reports
 	Skipped  string   `json:"skipped,omitempty"`
+	Pre      int      `json:"pre,omitempty"` // 1: written before the operation starts (a crash leaves only this line)
 }
 
 const (
@@ -922,7 +925,7 @@ func prepLay(s scn, w *world, guard, out string) prepared {
 	return prepared{op: op, allow: allow, input: h}
 }
 
-func runScenario(ctx context.Context, s scn, w *world, root string) fact {
+func runScenario(ctx context.Context, s scn, w *world, root string, emit func(fact)) fact {
 	guard := filepath.Join(root, fmt.Sprintf("g%d", s.ID))
 	must(os.Mkdir(guard, 0o777)) // start marker of the scenario
 	out := filepath.Join(guard, "out")
@@ -960,6 +963,9 @@ func runScenario(ctx context.Context, s scn, w *world, root string) fact {
 	must(err)
 	vline := statLine(victim, vfi)
 	before := snapshot(root, guard)
+	pre := f
+	pre.Pre = 1
+	emit(pre)
 	marker(s.ID, "op-begin")
 	func() {
 		defer func() {
@@ -1010,14 +1016,22 @@ func main() {
 		if err := json.Unmarshal(line, &s); err != nil {
 			return err
 		}
-		f := runScenario(ctx, s, w, *root)
-		b, err := json.Marshal(f)
-		if err != nil {
-			return err
+		var werr error
+		emit := func(f fact) {
+			b, err := json.Marshal(f)
+			if err == nil {
+				_, err = bw.Write(append(b, '\n'))
+			}
+			if err == nil {
+				err = bw.Flush()
+			}
+			if err != nil {
+				werr = err
+			}
 		}
-		_, err = bw.Write(append(b, '\n'))
+		emit(runScenario(ctx, s, w, *root, emit))
 		n++
-		return err
+		return werr
 	}))
 	must(bw.Flush())
 	must(of.Close())
